@@ -296,6 +296,7 @@ void checkOracles(const Desc& d, const Obs& o, RunResult& r) {
     size_t totalExpectedFailures = 0; bool anyRepFailed = false;
     Map<Str, size_t> tokenExpected;        // token -> how often a failure with it must have been printed
     Map<Str, size_t> childTokens;          // the same for failures recorded inside forked children
+    Set<Str> childDontCare;                // ... except those of tests whose child the parent may not have waited for
     Vec<std::pair<Str, Str> > expectedBlocks;  // (header, token) per expected failure, for the console
     size_t failCursor = 0;
 
@@ -417,7 +418,12 @@ void checkOracles(const Desc& d, const Obs& o, RunResult& r) {
                 }
                 for (size_t i = 0; i < segFails.size(); i++) { const FailRec& fr = o.fails[segFails[i]]; if (fr.file != T.sarg(2) || fr.line != (size_t)T.arg(1) || fr.testName != formattedName(T)) r.fail("C11", "failure_owner", sfmt("failure '%s' attributed to %s at %s:%zu", fr.msg.c_str(), fr.testName.c_str(), fr.file.c_str(), fr.line)); }
                 // what the child printed before it ended must have reached the console: every failure it recorded, exactly once
-                if (!d.pi("synthetic") && c.output != 3 && eintr <= 30 && !forkFail) for (size_t i = 0; i < x.fails.size(); i++)      // (a parent that gave up waiting may finish before the child has printed) if (x.fails[i].token.compare(0, 2, "tk") == 0) childTokens[x.fails[i].token]++;
+                // Only the test's own failing statements are counted (their text is unique per statement and run once per execution), and only for
+                // children the parent waited for to the end: a parent that gave up waiting may finish before the child has printed.
+                if (!d.pi("synthetic") && c.output != 3)
+                    for (size_t i = 0; i < x.fails.size(); i++) if (x.fails[i].kind == 0 && x.fails[i].token.compare(0, 2, "tk") == 0) {
+                        if (eintr == 0 && !forkFail) childTokens[x.fails[i].token]++; else childDontCare.insert(x.fails[i].token);
+                    }
                 if (!seen.empty()) r.fail("C11", "ran_in_parent", sfmt("test %d executed %zu statements in the parent process", st.test, seen.size()));
                 repFailures += segFails.size(); failCursor += segFails.size();
                 continue;
@@ -515,6 +521,7 @@ void checkOracles(const Desc& d, const Obs& o, RunResult& r) {
     if (o.pluginCount != o.pluginCountExpected || o.removedStillFound) r.fail("C17", "plugin_removed", sigOf("what", o.pluginCount > o.pluginCountExpected ? "plugin not removed" : "wrong plugin removed"), sfmt("%d plugins installed after the removals, model %d; %d removed names still found", o.pluginCount, o.pluginCountExpected, o.removedStillFound));
     if (c.separate && !d.pi("synthetic")) {
         for (Map<Str, size_t>::const_iterator it = childTokens.begin(); it != childTokens.end(); ++it) {
+            if (childDontCare.count(it->first)) continue;
             size_t got = countOcc(o.childConsole, it->first);
             if (got != it->second) { r.fail("C01", "printed_once", sigOf("what", got < it->second ? "failure recorded in the child never reached the console" : "failure printed more than once by the child"), sfmt("token %s printed %zu times by forked children, expected %zu", it->first.c_str(), got, it->second)); break; }
         }
